@@ -91,14 +91,13 @@ def jobs_for(exe, th, seed):
         exh("local", "join", 4, 4)
         exh("local", "two", 4, 4)
         exh("local", "expire", 4, 4)
-        exh("ipc", "core", 4, 8)
-        exh("ipc", "data", 4, 4)
-        exh("ipc", "two", 3, 2)
-        exh("ipc", "expire", 3, 2)
+        # ipc is I/O bound (files in /dev/shm): a few milliseconds per history on an idle machine, hundreds under load
+        exh("ipc", "core", 2, 4)
+        exh("ipc", "data", 2, 2)
         rnd("local", 60, 8, 250, False)
         rnd("local", 60, 4, 150, True)
-        rnd("ipc", 60, 4, 80, False)
-        rnd("ipc", 60, 2, 60, True)
+        rnd("ipc", 40, 2, 12, False)
+        rnd("ipc", 40, 1, 8, True)
     return jobs
 
 
@@ -320,7 +319,28 @@ def run(ctx):
         if nviol < 5:
             if ctx.violation("implementation differs from what %s demands (%d mismatch lines, first): %s" % (pid, n, (f.get("line") or "")[:400]), body, key=key):
                 nviol += 1
-    # ---- the tie itself
+    # ---- the tie itself; when it is broken and no reference mismatch of this property was seen, search around it
+    if model_mm and not mine:
+        ok, out, tdir = vlib.cargo_build("g3", bins=["c01"])
+        exe = os.path.join(tdir, "c01")
+        sjobs = []
+        for i in range(6):     # saturating / draining / churning random histories with fresh seeds, both sizes
+            sjobs.append(("search:rnd:%d" % i, [exe, "rnd", "local", "80", str(i), "6", str(int(ctx.seed) + 7919 * (i + 1)), "200"] + (["big"] if i % 2 else [])))
+        for su in ("data", "core"):
+            for i in range(4):
+                sjobs.append(("search:exh:%s:%d" % (su, i), [exe, "exh", "local", su, "4", str(i), "4", str(ctx.seed)]))
+        sr = run_pipelines(sjobs, driver, timeout=600)
+        cleanup()
+        found = [m for m in sr["mismatch_lines"] if "kind=spec" in m[2] and pid in props_of(m[2])
+                 and not any(k.get("key") == (re.search(r" key=(\S+)", m[2]) or [None, None])[1] for k in ctx.known)]
+        ctx.cov["search_phase"] = {"jobs": len(sjobs), "cases": sr["cases"], "ops": sr["ops"], "new_reference_mismatches_of_this_property": len(found)}
+        if found:
+            lbl, cmd, line = found[0]
+            case_no = int(line.split("case=")[1].split()[0])
+            hist = vlib.extract_case(cmd.split(), driver, case_no, timeout=600)
+            cleanup()
+            ctx.violation("search after a broken tie found a failing history for %s: %s" % (pid, line[:400]),
+                          {"history": hist[:300], "harness_cmd": cmd, "mismatch": line, "how_to_rerun": "%s | %s" % (cmd, driver)})
     if model_mm:
         f = next((v for (k, kk), v in first.items() if k == "model"), {})
         lbl, cmd, line = model_mm[0]
